@@ -210,8 +210,20 @@ def r4_callbacks(ctx, prog):
                 r.ok(g['qname'], '%s@%s' % (short(c['callee']), c['l']), 'initialisation', file=g['file'], line=c['l'])
 
 
+def reset_only_from_inittoken(prog):
+    """OSToken::resetToken is reached only through Token::createToken <- Slot::initToken <- C_InitToken, which refuses a slot with open sessions."""
+    chain = [('OSToken::resetToken', {'Token::createToken'}), ('ObjectStoreToken::resetToken', {'Token::createToken'}), ('Token::createToken', {'Slot::initToken'}), ('Slot::initToken', {'SoftHSM::C_InitToken'})]
+    return all(set(callgraph.callers(prog, q)) <= allowed for q, allowed in chain)
+
+
+R5_EXCEPTIONS = {
+    'OSToken::resetToken': (reset_only_from_inittoken, 'the work list is taken by getObjects() before the lock, but the function runs only inside C_InitToken on a slot without sessions (C03.R6 / C14.R1): '
+                            'no other thread has a session through which it could add or remove objects of this token (validated: the only call chain is C_InitToken -> Slot::initToken -> Token::createToken)'),
+}
+
+
 def r5_split_sections(ctx, prog):
-    r = ctx.rule('C18.R5', 'no lost-update shape: a shared field is not rewritten in a second critical section from data read in an earlier one', floor=10, engine='E4')
+    r = ctx.rule('C18.R5', 'no lost-update / check-then-act shape: a critical section does not act on what an earlier section of the same mutex (or a self-locking method called before it) read', floor=10, engine='E4')
     L = locks.analyse(prog)
     for (q, sig), fl in sorted(L.items()):
         f = fl.fn
@@ -223,9 +235,6 @@ def r5_split_sections(ctx, prog):
         if not sc:
             continue
         site = 'critical sections of %s' % mutex
-        if len(sc) < 2:
-            r.ok(q, site, 'one critical section', file=f['file'], line=sc[0][1])
-            continue
         # locals filled from a shared field inside an earlier section, and whole-field writes in a later one
         bad = None
         for i, (m1, a1, b1, k1, _g1) in enumerate(sc):
@@ -269,12 +278,47 @@ def r5_split_sections(ctx, prog):
                         src = [x['name'] for a in n.get('args', []) for x in walk(a) if x.get('k') == 'Var' and x['name'] in tainted and tainted[x['name']] == n['recv']['field']]
                         if src:
                             bad = (n, src[0], a1, a2)
+        # check-then-act: a local computed by a method of this class that takes the same mutex by itself (outside any section here) steers a later section
+        if not bad:
+            lockers = {g.fn['qname'] for (qq, sg), g in L.items() if g.fn.get('class') == cls and any(sx[0] == mutex for sx in g.scopes)}
+            stale = {}
+            for n in walk(f['body']):
+                if n.get('k') == 'Decl':
+                    for d in n['decls']:
+                        init = d.get('init')
+                        if init is None or any(a <= n['l'] <= b for (_, a, b, _, _) in sc):
+                            continue
+                        cs = [c for c in walk(init) if c.get('k') == 'Call' and c.get('callee') in lockers and (c.get('recv') is None or c['recv'].get('k') == 'This')]
+                        if cs:
+                            stale[d['var']['name']] = (cs[0]['callee'], n['l'])
+                elif n.get('k') == 'Assign' and n['a'].get('k') == 'Var' and not any(a <= n['l'] <= b for (_, a, b, _, _) in sc):
+                    cs = [c for c in walk(n['b']) if c.get('k') == 'Call' and c.get('callee') in lockers and (c.get('recv') is None or c['recv'].get('k') == 'This')]
+                    if cs:
+                        stale[n['a']['name']] = (cs[0]['callee'], n['l'])
+            for (m2, a2, b2, k2, _g2) in sc:
+                for n in walk(f['body']):
+                    if a2 <= n.get('l', -1) <= b2 and n.get('k') == 'Var' and n['name'] in stale and stale[n['name']][1] < a2:
+                        bad2 = (n, n['name'], stale[n['name']], a2)
+                        break
+                else:
+                    continue
+                break
+            else:
+                bad2 = None
+            if bad2 and q in R5_EXCEPTIONS and R5_EXCEPTIONS[q][0](prog):
+                r.excepted(q, site, R5_EXCEPTIONS[q][1], file=f['file'], line=bad2[0]['l'])
+                continue
+            if bad2:
+                n, v, (callee, l0), a2 = bad2
+                r.violation(q, site, '%s is computed at line %s by %s, which takes and releases %s by itself; the critical section that starts at line %s then acts on it (line %s): between the two another thread can change what %s looked at '
+                            '(check-then-act is no longer atomic)' % (v, l0, callee, mutex, a2, n['l'], short(callee)), file=f['file'], line=n['l'])
+                continue
         if bad:
             n, v, a1, a2 = bad
             r.violation(q, site, 'the field is rewritten at line %s from %s, a snapshot taken in an earlier critical section (line %s): whatever another thread did between the two sections (line %s..%s) is overwritten — a lost update' % (n['l'], v, a1, a1, a2),
                         file=f['file'], line=n['l'])
         else:
-            r.ok(q, site, '%d critical sections without write-back of an earlier snapshot' % len(sc), file=f['file'], line=sc[0][1])
+            r.ok(q, site, '%d critical section(s), none acts on a stale read' % len(sc), file=f['file'], line=sc[0][1])
 
 
 def run(ctx):
@@ -286,6 +330,8 @@ def run(ctx):
 
 
 MUTANTS = [
+    dict(name='addtokenobject-lookup-outside-lock', rule='C18.R5', file='src/lib/handle_mgr/HandleManager.cpp', after='CK_OBJECT_HANDLE HandleManager::addTokenObject(',
+         old='\tMutexLocker lock(handlesMutex);\n', new='\tCK_OBJECT_HANDLE hExisting = getObjectHandle(object);\n\tMutexLocker lock(handlesMutex);\n\tif (hExisting != CK_INVALID_HANDLE) return hExisting;\n'),
     dict(name='handlemanager-getobject-no-lock', rule='C18.R1', file='src/lib/handle_mgr/HandleManager.cpp', after='CK_VOID_PTR HandleManager::getObject(',
          old='\tMutexLocker lock(handlesMutex);\n', new=''),
     dict(name='closesession-scan-before-lock', rule='C18.R1', file='src/lib/session_mgr/SessionManager.cpp', after='CK_RV SessionManager::closeSession(',
